@@ -4,14 +4,22 @@ import MosdnsVerif.Model.C13
 namespace Driver.C13
 open Model.C13
 
-/-- `4:<hex u32>/<bits>` or `6:<hex u128>/<bits>` -> the stored prefix (what `Append` keeps). -/
+/-- `4:<hex u32>` / `6:<hex u128>` -> the parsed address (4-byte / 16-byte form). -/
+def paddr? (s : String) : Option PAddr :=
+  match s.splitOn ":" with
+  | ["4", h] => (Hex.nat? h).map (fun x => (false, x))
+  | ["6", h] => (Hex.nat? h).map (fun x => (true, x))
+  | _ => none
+
+/-- One rule line -> the stored prefix (what `Append` keeps): `<addr>/<bits>` is a CIDR line,
+`<addr>` alone a single-address line whose length the loader model `loadLine` chooses. -/
 def prefix? (s : String) : Option Prefix :=
   match s.splitOn "/" with
   | [a, b] =>
-    match a.splitOn ":", b.toNat? with
-    | ["4", h], some n => (Hex.nat? h).map (fun x => appendV4 x n)
-    | ["6", h], some n => (Hex.nat? h).map (fun x => appendV6 x n)
+    match paddr? a, b.toNat? with
+    | some a, some n => (loadLine true (some (a, (n : Int))) none).map storeLine
     | _, _ => none
+  | [a] => (paddr? a).bind (fun a => (loadLine false none (some a)).map storeLine)
   | _ => none
 
 /-- `4:<hex>` or `6:<hex>` -> the 128-bit address `Contains` looks up (`to6`). -/
